@@ -1,9 +1,10 @@
 (** Proofs about Model/Setup.v: the run compiled by the component machines refines the specification run
     (C03 + C04 carried through Model/Sim.v by the relational bisimulation), and the closed symmetry
     theorems: time shift (C14) and time mirror (C10) of whole set-ups. *)
-From Coq Require Import ZArith QArith List Bool Lia.
+From Coq Require Import ZArith QArith Qround List Bool Lia.
 From Ladim Require Import Base.Num Model.Time Model.ForcingTime Model.Release Model.Sim Model.Setup.
-From Ladim Require Import Proofs.SimProofs Proofs.SimRelProofs Proofs.ForcingTimeProofs Proofs.ReleaseProofs.
+From Ladim Require Import Proofs.SimProofs Proofs.SimRelProofs Proofs.ForcingTimeProofs Proofs.ReleaseProofs
+  Proofs.SimInvProofs.
 Import ListNotations.
 Open Scope Z_scope.
 
@@ -27,15 +28,99 @@ Proof. intros H1 H2. unfold Qlt_bool. rewrite H1, H2. reflexivity. Qed.
 Lemma with_temp_eq v w t t' : pv_eq v w -> (t == t')%Q -> pv_eq (with_temp v t) (with_temp w t').
 Proof. intros (A & B & C & _) H. unfold pv_eq, with_temp; cbn. repeat split; assumption. Qed.
 
+(** round-half-even, the masked faces and the felt flow respect == *)
+Lemma qround_comp a b : (a == b)%Q -> qround a = qround b.
+Proof.
+  intro H. unfold qround. rewrite (Qfloor_comp _ _ H).
+  assert (a - inject_Z (Qfloor b) == b - inject_Z (Qfloor b))%Q as E by (rewrite H; reflexivity).
+  rewrite (Qcompare_comp _ _ E _ _ (Qeq_refl (1 # 2))). reflexivity.
+Qed.
+Lemma face_eq s U U' k : (U == U')%Q -> (face s U k == face s U' k)%Q.
+Proof. intro H. unfold face. destruct (is_land s k || is_land s (k + 1)); [reflexivity|exact H]. Qed.
+Lemma felt_eq s U U' x x' : (U == U')%Q -> (x == x')%Q -> (felt s U x == felt s U' x')%Q.
+Proof.
+  intros HU Hx. unfold felt, qfloor.
+  assert (x - (1 # 2) == x' - (1 # 2))%Q as E by (rewrite Hx; reflexivity).
+  rewrite (Qfloor_comp _ _ E).
+  rewrite (face_eq s U U' _ HU), (face_eq s U U' (_ + 1) HU), Hx. reflexivity.
+Qed.
+
 Lemma move_eq s u u' v w c : (u == u')%Q -> pv_eq v w ->
   pv_eq (fst (move s u v c)) (fst (move s u' w c)) /\ snd (move s u v c) = snd (move s u' w c).
 Proof.
   intros Hu (A & B & C & D). unfold move.
-  assert (vx v + u * cfac s c * s_dtdx s == vx w + u' * cfac s c * s_dtdx s)%Q as E by (rewrite A, Hu; reflexivity).
-  rewrite (Qlt_bool_comp _ _ _ _ (Qeq_refl (s_lo s)) E), (Qlt_bool_comp _ _ _ _ E (Qeq_refl (s_hi s))).
-  destruct (Qlt_bool (s_lo s) _ && Qlt_bool _ (s_hi s)); cbn; split; try reflexivity.
-  - unfold pv_eq; cbn. repeat split; assumption.
-  - unfold pv_eq. repeat split; assumption.
+  assert (Qred (vx v + felt s (u * cfac s c) (vx v) * s_dtdx s) =
+          Qred (vx w + felt s (u' * cfac s c) (vx w) * s_dtdx s)) as E.
+  { apply Qred_complete.
+    rewrite (felt_eq s (u * cfac s c) (u' * cfac s c) (vx v) (vx w)); [|rewrite Hu; reflexivity|exact A].
+    rewrite A. reflexivity. }
+  rewrite E.
+  destruct (Qlt_bool (s_lo s) _ && Qlt_bool _ (s_hi s)); [destruct (is_land s _)|]; cbn; split; try reflexivity;
+    unfold pv_eq; cbn; repeat split; (reflexivity || assumption).
+Qed.
+
+(** * what [move] does (the tracker's land / valid-region rules of Model/Tracker.v along the particle line) *)
+Definition cand (s : setup) (u : Q) (v : pv) (c : Z) : Q := Qred (vx v + felt s (u * cfac s c) (vx v) * s_dtdx s)%Q.
+Lemma cand_value s u v c : (cand s u v c == vx v + felt s (u * cfac s c) (vx v) * s_dtdx s)%Q.
+Proof. apply Qred_correct. Qed.
+Definition inside (s : setup) (x : Q) : bool := Qlt_bool (s_lo s) x && Qlt_bool x (s_hi s).
+(** killed iff the candidate is outside the valid interval; a killed particle keeps its value *)
+Lemma move_alive_iff s u v c : snd (move s u v c) = inside s (cand s u v c).
+Proof.
+  unfold move, inside, cand. destruct (Qlt_bool (s_lo s) _ && Qlt_bool _ (s_hi s)); [|reflexivity].
+  destruct (is_land s _); reflexivity.
+Qed.
+Lemma move_outside s u v c : inside s (cand s u v c) = false -> move s u v c = (v, false).
+Proof. unfold move, inside, cand. intros ->. reflexivity. Qed.
+(** a move onto land is cancelled: the particle stays where it is, alive *)
+Lemma move_onto_land s u v c : inside s (cand s u v c) = true -> is_land s (qround (cand s u v c)) = true ->
+  move s u v c = (v, true).
+Proof. unfold move, inside, cand. intros -> ->. reflexivity. Qed.
+(** otherwise the particle moves to the candidate, everything else unchanged *)
+Lemma move_at_sea s u v c : inside s (cand s u v c) = true -> is_land s (qround (cand s u v c)) = false ->
+  move s u v c = ({| vx := cand s u v c; vcls := vcls v; vage := vage v; vtemp := vtemp v |}, true).
+Proof. unfold move, inside, cand. intros -> ->. reflexivity. Qed.
+(** a particle at sea stays at sea, a particle inside the valid interval stays inside *)
+Lemma move_stays_at_sea s u v c : is_land s (qround (vx v)) = false ->
+  is_land s (qround (vx (fst (move s u v c)))) = false.
+Proof.
+  intro H. unfold move. fold (cand s u v c). destruct (Qlt_bool (s_lo s) _ && Qlt_bool _ (s_hi s)); [|exact H].
+  destruct (is_land s (qround (cand s u v c))) eqn:E; [exact H|exact E].
+Qed.
+Lemma move_stays_inside s u v c : inside s (vx v) = true -> inside s (vx (fst (move s u v c))) = true.
+Proof.
+  intro H. unfold move. fold (cand s u v c). fold (inside s (cand s u v c)).
+  destruct (inside s (cand s u v c)) eqn:E; [|exact H]. destruct (is_land s _); [exact H|exact E].
+Qed.
+(** the felt flow: the whole flow between two open faces (in particular without land), nothing between two
+    masked faces, and always between 0 and the flow *)
+Lemma felt_open s U x : let k := qfloor (x - (1 # 2)) in
+  is_land s k = false -> is_land s (k + 1) = false -> is_land s (k + 2) = false -> (felt s U x == U)%Q.
+Proof.
+  intros k A B C. unfold felt, face. fold k. replace (k + 1 + 1) with (k + 2) by lia. rewrite A, B, C. cbn. ring.
+Qed.
+Lemma felt_no_land s U x : s_land s = [] -> (felt s U x == U)%Q.
+Proof. intro H. apply felt_open; unfold is_land; rewrite H; reflexivity. Qed.
+Lemma felt_in_land s U x : is_land s (qfloor (x - (1 # 2)) + 1) = true -> (felt s U x == 0)%Q.
+Proof.
+  intro H. unfold felt, face. rewrite H, orb_true_r. cbn [orb]. ring.
+Qed.
+
+(** every particle of every record of the run is inside the valid interval in a sea cell, when the particles
+    are released there (system-level invariant of Proofs/SimInvProofs.v for the set-up's physics) *)
+Definition wet (s : setup) (v : pv) : Prop := inside s (vx v) = true /\ is_land s (qround (vx v)) = false.
+Theorem setup_records_in_water s :
+  (forall n x, In x (m_release s n) -> wet s (snd x)) ->
+  Forall (fun r : rec pv => Forall (fun x => wet s (snd x)) (rrows r)) (recs (m_run s)).
+Proof.
+  intro Hrel. unfold m_run.
+  apply (Proofs.SimInvProofs.cold_records_satisfy pv Z (m_release s) (m_force s) s_cache (m_track s) (ibm s) (s_due s) (wet s)).
+  - exact Hrel.
+  - intros n v W. exact W.
+  - intros n v c v' [W1 W2] E. unfold m_track in E.
+    assert (v' = fst (move s (m_u s n) v c)) as -> by (rewrite E; reflexivity).
+    split; [apply move_stays_inside; exact W1|apply move_stays_at_sea; exact W2].
+  - intros n v v' W E. unfold ibm in E. injection E as <- _. exact W.
 Qed.
 
 Lemma ibm_eq s n v w : pv_eq v w ->
@@ -129,12 +214,14 @@ Qed.
 (** * Two well-formed set-ups with the same physics whose SPECIFICATION environments agree run alike *)
 Definition phys_eq (s s' : setup) : Prop :=
   s_period s' = s_period s /\ s_dtdx s' = s_dtdx s /\ s_lo s' = s_lo s /\ s_hi s' = s_hi s /\
-  s_life s' = s_life s /\ s_cfac s' = s_cfac s.
+  s_life s' = s_life s /\ s_cfac s' = s_cfac s /\ s_land s' = s_land s.
 
 Lemma move_phys s s' u v c : phys_eq s s' -> move s' u v c = move s u v c.
-Proof. intros (_ & A & B & C & _ & E). unfold move, cfac. rewrite A, B, C, E. reflexivity. Qed.
+Proof.
+  intros (_ & A & B & C & _ & E & L). unfold move, felt, face, is_land, cfac. rewrite A, B, C, E, L. reflexivity.
+Qed.
 Lemma ibm_phys s s' n v : phys_eq s s' -> ibm s' n v = ibm s n v.
-Proof. intros (_ & _ & _ & _ & D & _). unfold ibm. rewrite D. reflexivity. Qed.
+Proof. intros (_ & _ & _ & _ & D & _ & _). unfold ibm. rewrite D. reflexivity. Qed.
 Lemma due_phys s s' n : phys_eq s s' -> s_due s' n = s_due s n.
 Proof. intros (A & _). unfold s_due. rewrite A. reflexivity. Qed.
 
